@@ -130,7 +130,7 @@ func init() {
 		mutant{Name: "iota-counts-names", Prop: "C03", File: "interp/gta.go", Old: "\t\t\t\t\tif i == n.nleft-1 {\n\t\t\t\t\t\t// All the constants of the specification are defined.\n\t\t\t\t\t\tif childPos(n) == len(n.anc.child)-1 {\n\t\t\t\t\t\t\tsc.iota = 0\n\t\t\t\t\t\t} else {\n\t\t\t\t\t\t\tsc.iota++\n\t\t\t\t\t\t}\n\t\t\t\t\t}\n", New: "\t\t\t\t\tif childPos(n) == len(n.anc.child)-1 {\n\t\t\t\t\t\tsc.iota = 0\n\t\t\t\t\t} else {\n\t\t\t\t\t\tsc.iota++\n\t\t\t\t\t}\n", Rule: "R03.5", Key: "Interpreter.gta/iota"},
 		mutant{Name: "implicit-repetition-at-the-first-name", Prop: "C03", File: "interp/ast.go", Old: " && n.anc.nright == 0 && len(n.anc.child) == n.anc.nleft {", New: " && n.anc.nright == 0 {", Rule: "R03.15", Key: "ast/implicit-repetition/after-the-last-name"},
 		mutant{Name: "goroutine-function-value-read-late", Prop: "C08", File: "interp/run.go", Old: "\t\t\t\tbf = fixArg(bf)\n", New: "", Rule: "R08.9", Key: "call/go#1/function-value-copied:bf"},
-		mutant{Name: "goroutine-compiled-function-value-read-late", Prop: "C08", File: "interp/run.go", Old: "\t\t\tgo callFn(fixArg(value(f)), in)\n", New: "\t\t\tgo callFn(value(f), in)\n", Rule: "R08.9", Key: "callBin/go#1"},
+		mutant{Name: "goroutine-compiled-function-value-read-late", Prop: "C08", File: "interp/run.go", Old: "\t\t\t}(fixArg(value(f)), in)\n", New: "\t\t\t}(value(f), in)\n", Rule: "R08.9", Key: "callBin/go#1"},
 	)
 }
 
@@ -379,5 +379,13 @@ func init() {
 	addMutants(
 		// D109 reverted
 		mutant{Name: "case-expressions-not-checked-against-the-tag", Prop: "C12", File: "interp/cfg.go", Old: "\t\t\t\t\t\tif !e.typ.assignableTo(tag.typ) && !tag.typ.assignableTo(e.typ) {\n\t\t\t\t\t\t\terr = e.cfgErrorf(\"invalid case in switch (mismatched types %s and %s)\", e.typ.id(), tag.typ.id())\n\t\t\t\t\t\t\treturn\n\t\t\t\t\t\t}\n", New: "", Rule: "R12.22", Key: "cfg/case:switchStmt/case-expressions-checked-against-the-tag"},
+	)
+}
+
+func init() {
+	addMutants(
+		// D110 reverted (one site)
+		mutant{Name: "goroutine-of-an-interpreted-call-without-a-guard", Prop: "C09", File: "interp/run.go", Old: "\t\t\tgo func() {\n\t\t\t\tdefer goGuard(n, f)()\n\t\t\t\trunCfg(def.child[3].start, nf, def, n)\n\t\t\t}()\n", New: "\t\t\tgo func() {\n\t\t\t\trunCfg(def.child[3].start, nf, def, n)\n\t\t\t}()\n", Rule: "R09.9", Key: "call/go#2/panic-of-a-cancelled-run-stops-in-the-goroutine"},
+		mutant{Name: "goroutine-guard-swallows-every-panic", Prop: "C09", File: "interp/run.go", Old: "\t\tif r := recover(); r != nil && f.runid() == n.interp.runid() {\n\t\t\tpanic(r)\n\t\t}\n", New: "\t\t_ = recover()\n", Rule: "R09.9", Key: "call/go#1/panic-of-a-cancelled-run-stops-in-the-goroutine"},
 	)
 }
